@@ -108,7 +108,10 @@ pub fn mk_lang(name: &str) -> Lang {
         }
         "xc" => lang_compose_only(),
         "xd" => {
+            // use, extend, use: the German language has already tokenised texts when it gets its new letter
             let mut lang = lang_german();
+            let _ = tokenization::tokenize_record("Straße über 3 Brücken", &lang);
+            let _ = tokenize_query("ubër", &lang);
             lang.add_unicode_composition("e\u{301}", "é");
             lang.add_unicode_composition("E\u{301}", "É");
             lang.add_unicode_reduction("é", "e");
@@ -180,6 +183,14 @@ fn lang_compose_only() -> Lang {
     for (from, to) in XC_COMPOSE.iter() {
         lang.add_unicode_composition(from, to);
     }
+    // characters that stay inside words, labelled with classes the bundled tables never use
+    use lucid_suggest_core::lang::CharClass;
+    lang.add_char_class('\u{b7}', CharClass::Punctuation);
+    lang.add_char_class('+', CharClass::Control);
+    lang.add_char_class('_', CharClass::Whitespace);
+    lang.add_char_class('\'', CharClass::NotAlphaNum);
+    lang.add_char_class('#', CharClass::NotAlpha);
+    lang.add_char_class('q', CharClass::Any);
     for (w, k) in XC_TAGGED_CONTENT.iter() {
         let pos = [PartOfSpeech::Pronoun, PartOfSpeech::Intejection, PartOfSpeech::Noun, PartOfSpeech::Verb, PartOfSpeech::Adjective, PartOfSpeech::Adverb][*k as usize];
         lang.add_pos(w, pos);
